@@ -64,10 +64,10 @@ Proof. exact Proofs.goerror_recoverable_host. Qed.
 
 (* 2c. a Go error returned by a reflect-wrapped native (not an *Exception, not uncatchable) arrives in the
        calling script as a catchable GoError object holding exactly that error *)
-Theorem goerror_catchable : forall d e act fin,
+Theorem goerror_catchable : forall d e act fin fa,
   uncatchable e = false -> (forall v st, e <> exc_err v st) ->
-  snd (step_js d (mkJS (Some act) fin) (init_signal (S d) (TNatReturnErr e))) =
-    EvCatch d (VGoErr (fresh_goerr (S d)) e) :: fin_ev d (mkJS (Some act) fin).
+  snd (step_js d (mkJS (Some act) fin fa) (init_signal (S d) (TNatReturnErr e))) =
+    EvCatch d (VGoErr (fresh_goerr (S d)) e) :: fin_ev d (mkJS (Some act) fin fa).
 Proof. exact Proofs.goerror_catchable. Qed.
 
 (* 3. uncatchable_invisible.  An InterruptedError / StackOverflowError — possibly wrapped by fmt.Errorf "%w"
@@ -94,15 +94,15 @@ Proof. exact Proofs.uncatchable_host. Qed.
 
 (* 3c. whole cases: interrupt / stack overflow / a returned or panicked (wrapped) uncatchable error as the
        innermost event, with or without a promise-job boundary: no JS catch/finally/rejection event happens
-       after the throw (the finally blocks of frames that had already completed normally before the job ran
-       are the only JS events) *)
+       after the throw (the JS events are exactly those of the synchronous part, which ran before the job) *)
 Theorem uncatchable_invisible_case : forall c e,
   init_signal (length (c_pre c) + match c_post c with Some post => length post | None => 0 end) (c_thrower c)
     = SPanic (PVErr e) ->
   hard_unc e = true ->
   js_events (fst (propagate c)) =
     match c_post c with None => [] | Some _ => js_events (snd (unwind 0 (c_pre c) SNormal)) end /\
-  catch_obs (fst (propagate c)) = [].
+  catch_obs (fst (propagate c)) =
+    match c_post c with None => [] | Some _ => catch_obs (snd (unwind 0 (c_pre c) SNormal)) end.
 Proof. exact Proofs.uncatchable_invisible_case. Qed.
 
 (* 3d. (was uncatchable_join_refuted, finding C14-N1, repaired by 63ed9d0) a native that returns
@@ -129,12 +129,12 @@ Theorem plain_error_panic_propagates : forall fs d e cb,
 Proof. exact Proofs.plain_error_panic_propagates. Qed.
 
 (* 5. rethrow_identity.  catch (e) { throw e } re-throws the caught value; a frame without catch (with or
-      without finally) passes on the very same *Exception (same stack). *)
+      without a finally that completes normally) passes on the very same Exception pointer (same stack). *)
 Theorem rethrow_identity : forall d fin p v st,
   exc_of d p = Some (v, st) ->
-  step_js d (mkJS (Some CRethrow) fin) (SPanic p) =
-    (SPanic (PVExc v (stack_of d v)), EvCatch d v :: fin_ev d (mkJS (Some CRethrow) fin)) /\
-  step_js d (mkJS None fin) (SPanic p) = (SPanic (PVExc v st), fin_ev d (mkJS None fin)).
+  step_js d (mkJS (Some CRethrow) fin FinQuiet) (SPanic p) =
+    (SPanic (PVExc v (stack_of d v)), EvCatch d v :: fin_ev d (mkJS (Some CRethrow) fin FinQuiet)) /\
+  step_js d (mkJS None fin FinQuiet) (SPanic p) = (SPanic (PVExc v st), fin_ev d (mkJS None fin FinQuiet)).
 Proof. exact Proofs.rethrow_identity. Qed.
 
 (* 6. promise jobs: a JS exception inside a job never reaches the embedder or the frames that scheduled it;
